@@ -84,6 +84,9 @@ pub fn c05_inits() -> Vec<Init> {
     .iter()
     .map(|t| Init::Text(s(t)))
     .chain([
+        Init::Collected(s("A: 1\n\nB: 2\n"), false),
+        Init::Collected(s("A: 1\n\nB: 2"), true),
+        Init::Collected(s("# l\nA: 1\n x\n# e\n\n\nB: 2\n\nC:"), true),
         Init::Reformatted(s("A: 1\n\n\n# m\nB: 2\n x\n\nC: 3")),
         Init::Reformatted(s("# l\n\nA: 1\n# t")),
         Init::New,
